@@ -1,6 +1,7 @@
 package main
 
 import (
+	"go/types"
 	"fmt"
 	"go/constant"
 	"strings"
@@ -131,6 +132,27 @@ func c17h(c *Ctx) {
 		}
 	}
 	c.Check(nEmit >= 1 && nSinks >= 1, "output/followed", "-", fmt.Sprintf("Emit's result followed to %d write call(s)", nSinks), fmt.Sprintf("found %d calls of Emit in package main and %d places where its result is written", nEmit, nSinks))
+	// (2b) nor is the input: the wrapper writes into no byte or rune of a text (the bytes read
+	// reach the lexer as they are: C17.f follows the value, this clause the memory)
+	for _, fn := range mains {
+		k := 0
+		instrs(fn, func(in ssa.Instruction) {
+			st, ok := in.(*ssa.Store)
+			if !ok {
+				return
+			}
+			ia, ok := st.Addr.(*ssa.IndexAddr)
+			if !ok {
+				return
+			}
+			if sl, isSl := ia.X.Type().Underlying().(*types.Slice); isSl {
+				if b, isB := sl.Elem().Underlying().(*types.Basic); isB && (b.Kind() == types.Byte || b.Kind() == types.Uint8 || b.Kind() == types.Rune || b.Kind() == types.Int32) {
+					k++
+					c.Bad(fmt.Sprintf("text-bytes-written/%s#%d", fn.Name(), k), c.W.Pos(st.Pos()), fn.Name()+" overwrites a byte of a text in place ("+pretty(c.term(fn, st.Addr))+"): the program that is compiled (or written out) is not the one that was read — line counts and columns shift")
+				}
+			}
+		})
+	}
 	// (3) the output file is emptied when it is opened
 	for _, fn := range mains {
 		for _, ci := range callsIn(fn) {
